@@ -126,4 +126,35 @@ VH_NOINSTR static void vh_rt_run_join(int kthreads, vh_op_fn fn, size_t stack) {
   vr_set_done();
   (void)kthreads;
 }
+
+/* Initialisation functions must not depend on zeroed storage or on fresh (zeroed) heap: before
+ * an object is initialised the harness fills it with 0xAB and leaves dirty chunks of the usual
+ * sizes in the allocator's bins (tcache AND fastbin/unsorted: tcache clears bytes 8..15). */
+#ifndef VH_DIRTY_DEFINED
+#define VH_DIRTY_DEFINED
+__attribute__((no_sanitize_thread)) static void vh_dirty_heap(void) {
+  static const size_t sizes[] = {16, 24, 32, 48, 64, 96, 128, 152, 256};
+  for (unsigned s = 0; s < sizeof sizes / sizeof *sizes; s++) {
+    void* p[12];
+    for (int i = 0; i < 12; i++) {
+      p[i] = malloc(sizes[s]);
+      memset(p[i], 0xAB, sizes[s]);
+      __asm__ __volatile__("" : : "r"(p[i]) : "memory");
+    }
+    for (int i = 0; i < 12; i++) free(p[i]);
+    /* drain the per-thread cache (7 entries) so the next allocation of this size comes
+     * from a fastbin / the unsorted bin with its payload still dirty */
+    for (int i = 0; i < 7; i++) {
+      void* volatile keep = malloc(sizes[s]); /* volatile: the call must not be optimised away */
+      (void)keep;
+    }
+  }
+}
+#define VH_DIRTY(obj)                                      \
+  do {                                                     \
+    memset((void*)&(obj), 0xAB, sizeof(obj));              \
+    __asm__ __volatile__("" : : "r"(&(obj)) : "memory");   \
+    vh_dirty_heap();                                       \
+  } while (0)
+#endif
 #endif
